@@ -21,6 +21,19 @@ def _alarm(signum, frame):
     raise _Timeout()
 
 
+def outcome_class(name, mod):
+    """the documented refusals, recognised by exception type only"""
+    if name == "ParseError" and mod.startswith("coco."):
+        return "undefined-or-duplicate"
+    if name == "LineNumberTooLargeException":
+        return "too-large"
+    if name in ("ParseError", "IncompleteParseError") and mod.startswith("parsimonious"):
+        return "grammar"
+    if name == "ValidationError":
+        return "config"
+    return "other:" + name
+
+
 def one(case):
     opts = dict(case.get("opts") or {})
     try:
@@ -36,7 +49,7 @@ def one(case):
         return {"exc": "TIMEOUT", "msg": ""}
     except BaseException as ex:  # noqa: BLE001 - classification happens in the specification
         mod = type(ex).__module__ or ""
-        return {"exc": type(ex).__name__, "mod": mod, "msg": str(ex)[:300]}
+        return {"exc": type(ex).__name__, "mod": mod, "msg": str(ex)[:300], "outcome": outcome_class(type(ex).__name__, mod)}
 
 
 def main():
